@@ -180,9 +180,9 @@ def many_fragments(rng):
     ref = np.zeros((side, side), np.uint32)
     ref[2:side - 2, 2:side - 2] = 1
     pred = np.zeros((side, side), np.uint32)
-    step = rng.choice([1, 1000])
+    step = rng.choice([1, 1000, 1000, 1000, 997])
     pred[2:side // 2 + 2, 2:side - 2] = step
-    k = rng.randint(15, 40)
+    k = rng.randint(28, 40) if rng.random() < 0.7 else rng.randint(15, 27)
     lab = 2
     cells = [(y, x) for y in range(side // 2 + 3, side - 2) for x in range(2, side - 2)]
     for (y, x) in rng.sample(cells, k):
@@ -196,7 +196,7 @@ def many_fragments(rng):
 def run(ctx):
     corpus(ctx)
     rng = ctx.rng
-    for i in range(ctx.scale(6, 40)):
+    for i in range(ctx.scale(16, 80)):
         p, r = many_fragments(rng)
         ctx.count("many_sparse_fragments")
         one_case(ctx, p, r, rng.choice(["IOU", "DSC"]), rng.choice([(1, 4), (1, 2)]), f"manyfrag{i}", shared=rng.random() < 0.5)
